@@ -91,6 +91,9 @@ CTX_N = {
     # PRINT items that start with a sign or NOT, alone and after another item
     "print-neg": "10 PRINT - {e}", "print-neg-second": "10 PRINT Y ; - {e}", "print-not": "10 PRINT NOT {e}", "print@-neg": "10 PRINT @ 5 , - {e}",
     "assign-neg": "10 Z = - {e}",
+    # conditions that chain three or more terms with AND / OR, the call in a middle term
+    "if-and3": "10 IF Y = 1 AND {e} = 1 AND W = 2 THEN Z = 1", "if-or-and3": "10 IF V = 0 OR Y = 1 AND {e} = 1 AND W = 2 THEN Z = 1", "if-or3": "10 IF Y = 1 OR {e} = 1 OR W = 2 THEN Z = 1",
+    "for-step-signed": "10 FOR I = 9 TO 1 STEP - {e} - 1 : GOTO 20 : NEXT I\n20 END",
     # every operand of the ellipse and arc forms of HCIRCLE (statement objects that wrap another statement object)
     "ellipse-x": "10 HCIRCLE ( {e} , 2 ) , 3 , 4 , 5", "ellipse-r": "10 HCIRCLE ( 1 , 2 ) , {e} , 4 , 5", "ellipse-c": "10 HCIRCLE ( 1 , 2 ) , 3 , {e} , 5",
     "ellipse-ratio": "10 HCIRCLE ( 1 , 2 ) , 3 , 4 , {e}", "ellipse-no-colour": "10 HCIRCLE ( 1 , {e} ) , 3 , , 5",
@@ -113,7 +116,7 @@ def library():
 
 def jobs_for(tier):
     jobs = []
-    nctx = CTX_N if tier == "thorough" else {k: v for k, v in CTX_N.items() if k not in ("print2", "hline", "locate", "hset", "for-step", "gosub-target")}
+    nctx = CTX_N if tier == "thorough" else {k: v for k, v in CTX_N.items() if k not in ("print2", "hline", "locate", "hset", "gosub-target")}
     for (cname, c), (ekey, e) in itertools.product(nctx.items(), list(num_exprs())):
         if tier == "quick" and ekey[0] == "pair" and cname not in ("assign", "assign-sub", "print", "if", "sound"):
             continue
